@@ -1,3 +1,3 @@
 SPECIFICATION Spec
-INVARIANT BmatOffsetsHold
+INVARIANT ClausesHold
 CHECK_DEADLOCK FALSE
